@@ -719,3 +719,173 @@ pub fn do_update_clash(w: &mut World, c: usize, g: usize, pick: u64) -> VResult<
     w.do_commit(c, g, &CommitSpec::default())?;
     Ok(true)
 }
+
+
+/// PublicMessage carrying one proposal (encoded: type + body), signed with party `s`'s key for leaf `sleaf`
+fn forge_proposal_msg(w: &World, s: usize, g: usize, epoch: u64, sleaf: u32, ctx: &[u8], mk: &[u8], proposal: &[u8]) -> Option<Vec<u8>> {
+    let csp = w.csp(s);
+    let mut content = vec![];
+    put_vec(&mut content, &w.groups[g].gid);
+    content.extend_from_slice(&epoch.to_be_bytes());
+    content.push(1);
+    content.extend_from_slice(&sleaf.to_be_bytes());
+    put_vec(&mut content, &[]);
+    content.push(2);
+    content.extend_from_slice(proposal);
+    let mut ftbs = vec![0, 1, 0, 1];
+    ftbs.extend_from_slice(&content);
+    ftbs.extend_from_slice(ctx);
+    let mut sc = vec![];
+    put_vec(&mut sc, b"MLS 1.0 FramedContentTBS");
+    put_vec(&mut sc, &ftbs);
+    let sig = csp.sign(&w.parties[s].signer, &sc).ok()?;
+    let alg = HashAlg::for_suite(w.cfg.suite);
+    let mut auth = vec![];
+    put_vec(&mut auth, &sig);
+    let mut tbm = ftbs.clone();
+    tbm.extend_from_slice(&auth);
+    let tag = alg.hmac(mk, &tbm);
+    let mut bytes = vec![0, 1, 0, 1];
+    bytes.extend_from_slice(&content);
+    bytes.extend_from_slice(&auth);
+    put_vec(&mut bytes, &tag);
+    Some(bytes)
+}
+
+/// B-FORGE-REF: member `s` (a Byzantine member whose key the harness holds) sends well-formed Add proposals that
+/// every receiver caches, and then a commit that references them although together they break a rule (the added
+/// client is a member already; two Adds of one client). Receivers work on a copy of their group: they must refuse the
+/// commit on the rule - not drop the offending Add and go on to the confirmation tag.
+pub fn do_forge_ref_add(w: &mut World, s: usize, g: usize, pick: u64) -> VResult<bool> {
+    if !w.live(s, g) || w.cfg.encrypt_handshake || w.groups[g].reinit_at.is_some() {
+        return Ok(false);
+    }
+    let epoch = w.epoch_of(s, g).unwrap();
+    if epoch != w.groups[g].log.len() as u64 {
+        return Ok(false);
+    }
+    let Some(rec) = w.groups[g].records.get(&epoch).cloned() else { return Ok(false) };
+    let Some(sleaf) = w.groups[g].members.get(&epoch).and_then(|m| m.get(&s)).copied() else { return Ok(false) };
+    let leaf_key = rec.roster.iter().find(|(i, _, _)| *i == sleaf).map(|(_, _, k)| k.clone());
+    if leaf_key.as_deref() != Some(w.parties[s].signing_identity.signature_key.as_ref()) {
+        return Ok(false);
+    }
+    let Some(mk) = membership_key(w, s, g) else { return Ok(false) };
+    let mut r = crate::prng::Prng::new(crate::prng::mix(&[w.seed, w.step_no as u64, 0xf0e]));
+    let (kps, name): (Vec<Vec<u8>>, &str) = if pick % 2 == 0 {
+        let member_kp = w.kp_owner.values().find(|(o, _)| {
+            *o != s && w.groups[g].members.get(&epoch).map(|m| m.contains_key(o)).unwrap_or(false)
+        });
+        match member_kp {
+            Some((_, kp)) => (vec![kp.clone()], "by-reference-add-of-existing-member"),
+            None => return Ok(false),
+        }
+    } else {
+        let banned = w.cfg.knob("banned").map(|_| w.parties.len() - 1);
+        let outsider = (0..w.parties.len()).find(|p| {
+            matches!(w.mem_ref(*p, g).map(|m| m.status.clone()).unwrap_or(Status::Never), Status::Never)
+                && !w.parties[*p].crashed
+                && Some(*p) != banned
+                && Some(*p) != w.legacy()
+                && !rec.roster.iter().any(|(_, id, _)| *id == w.parties[*p].name)
+        });
+        let Some(o) = outsider else { return Ok(false) };
+        let (Some(a), Some(b)) = (w.gen_key_package(o)?, w.gen_key_package(o)?) else { return Ok(false) };
+        (vec![a, b], "two-by-reference-adds-of-one-client")
+    };
+    let mut props = vec![];
+    for kp in &kps {
+        let Some(m) = forge_proposal_msg(w, s, g, epoch, sleaf, &rec.ctx, &mk, &enc_add(kp)) else { return Ok(false) };
+        props.push(m);
+    }
+    let mut entries: Vec<(u8, Vec<u8>)> = vec![];
+    for m in &props {
+        let Some(rf) = proposal_ref_of(w.cfg.suite, m) else { return Ok(false) };
+        entries.push((2u8, rf));
+    }
+    let tag_seed = r.bytes(HashAlg::for_suite(w.cfg.suite).len());
+    let Some(commit) = build_forged(w, s, g, epoch, sleaf, &rec.ctx, &entries, &mk, &tag_seed) else { return Ok(false) };
+    w.stats.fault("B-FORGE-REF");
+    *w.stats.probes.entry(format!("forged-commit:{name}")).or_default() += 1;
+    let now = w.now();
+    let prop = w.cfg.property.clone();
+    let receivers: Vec<usize> = w
+        .live_members(g)
+        .into_iter()
+        .filter(|p| *p != s && w.epoch_of(*p, g) == Some(epoch) && w.parties[*p].mems[g].pending.is_none())
+        .collect();
+    for p in receivers {
+        let mut grp = w.parties[p].mems[g].group.clone().unwrap();
+        let mut cached = true;
+        for m in &props {
+            let res = guarded(&prop, "process_incoming_message(forged add proposal)", || {
+                grp.process_incoming_message_with_time(mls_rs::MlsMessage::from_bytes(m)?, now)
+            })?;
+            if res.is_err() {
+                // a receiver may refuse the proposal itself: then there is nothing to reference
+                cached = false;
+                *w.stats.probes.entry(format!("forged-ref:{name}:proposal-refused")).or_default() += 1;
+            }
+        }
+        if !cached {
+            continue;
+        }
+        let res = guarded(&prop, "process_incoming_message(forged commit by reference)", || {
+            grp.process_incoming_message_with_time(mls_rs::MlsMessage::from_bytes(&commit)?, now)
+        })?;
+        w.stats.check("forged-commit-rejected");
+        match res {
+            Ok(_) => {
+                return Err(viol(
+                    w,
+                    "forged-commit-rejected",
+                    format!("forged-commit-accepted:{name}"),
+                    format!("P{p} accepted a commit forged in P{s}'s name (template {name}) whose confirmation tag is random"),
+                ))
+            }
+            Err(e) => {
+                let cls = err_class(&e);
+                w.ev(format!("forge {name} as P{s} -> P{p} err {cls}"));
+                *w.stats.probes.entry(format!("forged:{name}:{cls}")).or_default() += 1;
+                if cls == "InvalidConfirmationTag" {
+                    return Err(viol(
+                        w,
+                        "receiver-side-proposal-rules",
+                        format!("invalid-proposal-set-passed-receiver-rules:{name}"),
+                        format!("P{p}: a commit referencing cached proposals that break a rule together ({name}) passed every receiver-side proposal rule and was only stopped by its (random) confirmation tag"),
+                    ));
+                }
+            }
+        }
+    }
+    // an observer that has seen the proposals refuses the commit as well
+    for k in 0..w.ext.observers.len() {
+        if w.ext.observers[k].g != g || w.ext.observers[k].group.group_context().epoch != epoch {
+            continue;
+        }
+        let mut grp = w.ext.observers[k].group.clone();
+        let mut cached = true;
+        for m in &props {
+            let res = guarded(&prop, "observer.process_incoming_message(forged add proposal)", || {
+                grp.process_incoming_message_with_time(mls_rs::MlsMessage::from_bytes(m)?, now)
+            })?;
+            cached &= res.is_ok();
+        }
+        if !cached {
+            continue;
+        }
+        let res = guarded(&prop, "observer.process_incoming_message(forged commit by reference)", || {
+            grp.process_incoming_message_with_time(mls_rs::MlsMessage::from_bytes(&commit)?, now)
+        })?;
+        w.stats.check("observer-rejects-invalid-proposal-set");
+        if res.is_ok() {
+            return Err(viol(
+                w,
+                "observer-rejects-invalid",
+                format!("observer-accepted-invalid-proposal-set:{name}"),
+                format!("observer {k} at epoch {epoch} accepted a commit signed by P{s} that references cached proposals breaking a rule together ({name})"),
+            ));
+        }
+    }
+    Ok(true)
+}
